@@ -190,11 +190,11 @@ fn main() {
         if thorough {
             firsts.extend(vec![vec![7], vec![1, 1], vec![5, 2], vec![2, 2, 2, 2], vec![0, 1], vec![1, 0], vec![0, 2, 0], vec![2, 3, 0], vec![1, 2, 0, 2]]);
         }
-        let nlay = if thorough { 8 } else { 3 };
+        let nlay = if thorough { 8 } else { 4 };
         // one work item per (first shape, layout)
         r.section("table", (firsts.len() * nlay) as u64, |k, _rng, acc| {
             let first = &firsts[k as usize / nlay];
-            let li = [0usize, 4, 6, 1, 2, 3, 5, 7][k as usize % nlay];
+            let li = [0usize, 1, 4, 6, 2, 3, 5, 7][k as usize % nlay];
             let mut t = Table { acc };
             let empty = is_empty(first);
             let (e, lc) = fill_f64(first, li, 0.0);
@@ -437,6 +437,15 @@ fn main() {
                         t.cell("quantile_axis_mut", "i32", first, &l1, &lc, e1.clone(), observe(|| ei.view_mut().quantile_axis_mut(Axis(axis), n64(q), &Midpoint)));
                         t.cell("quantile_axis_mut", "N64", first, &l1, &lc, e1.clone(), observe(|| en.view_mut().quantile_axis_mut(Axis(axis), n64(q), &Lower)));
                         t.cell("quantile_axis_skipnan_mut", "f64", first, &l1, &lc, e1.clone(), observe(|| em.view_mut().quantile_axis_skipnan_mut(Axis(axis), n64(q), &Lower)));
+                        // the same with every element missing (NaN / None): the request is still validated first
+                        {
+                            let allnan: Vec<f64> = vec![f64::NAN; e.pos.len()];
+                            let mut en2 = Embedded::new(first, &allnan, Layout::family(first.len(), li));
+                            t.cell("quantile_axis_skipnan_mut", "f64 (all NaN)", first, &l1, &lc, e1.clone(), observe(|| en2.view_mut().quantile_axis_skipnan_mut(Axis(axis), n64(q), &Midpoint)));
+                            let allnone: Vec<Option<i32>> = vec![None; e.pos.len()];
+                            let mut eo2 = Embedded::new(first, &allnone, Layout::family(first.len(), li));
+                            t.cell("quantile_axis_skipnan_mut", "Option<i32> (all None)", first, &l1, &lc, e1.clone(), observe(|| eo2.view_mut().quantile_axis_skipnan_mut(Axis(axis), n64(q), &Lower)));
+                        }
                         if first.len() == 1 {
                             t.cell("quantile_mut", "N64", first, &l1, &lc, e1.clone(), observe(|| en.view_mut().into_dimensionality::<Ix1>().unwrap().quantile_mut(n64(q), &Linear)));
                         }
